@@ -1730,3 +1730,127 @@ func runC12Sanitize(c *Ctx) {
 		c.Undecided("sanitiser of expanded values", "-", "not found")
 	}
 }
+
+// ---------- C08.R11: a one-of alternative is constructed so that its encoder writes it ----------
+//
+// The generated encoders of some one-of alternatives write their field only `if m.F != nil` (bytes, nested
+// messages). Presence of the alternative is then carried by the value being non-nil: an alternative built with a nil
+// field is encoded as nothing and decodes as "no value" – the type is lost on a protobuf round trip. Every
+// construction of such an alternative in the pdata API must therefore store a non-nil value.
+func runC08OneOfPresence(c *Ctx) {
+	p := c.P
+	c.Rule("R11", "COV", "every pdata construction of a one-of alternative whose generated encoder writes the field only when it is non-nil stores a non-nil value into that field (an empty bytes value is `[]byte{}`, not nil): the alternative survives protobuf encoding with its type", 3)
+	// 1. alternatives with a nil-guarded encoder: wrapper struct with exactly one field F, MarshalToSizedBuffer tests F != nil
+	type alt struct {
+		T *types.Named
+		F int
+	}
+	var alts []alt
+	for _, pk := range p.Pkgs {
+		if !strings.Contains(pk.PkgPath, "/pdata/internal/data/protogen") {
+			continue
+		}
+		for _, fn := range p.AllSrcFuncs(pk) {
+			if fn.Parent() != nil || fn.Name() != "MarshalToSizedBuffer" {
+				continue
+			}
+			T := recvNamedOfFn(fn)
+			if T == nil || !strings.Contains(T.Obj().Name(), "_") {
+				continue
+			}
+			st, ok := T.Underlying().(*types.Struct)
+			if !ok || st.NumFields() != 1 {
+				continue
+			}
+			guarded := false
+			allInstrs(fn, func(in ssa.Instruction) {
+				iff, ok := in.(*ssa.If)
+				if !ok {
+					return
+				}
+				bo, ok := iff.Cond.(*ssa.BinOp)
+				if !ok || bo.Op != token.NEQ || !(isNilConst(bo.X) || isNilConst(bo.Y)) {
+					return
+				}
+				o := bo.X
+				if isNilConst(o) {
+					o = bo.Y
+				}
+				if u, ok := o.(*ssa.UnOp); ok && u.Op == token.MUL {
+					if fa, ok := u.X.(*ssa.FieldAddr); ok && namedOf(fa.X.Type()) == T {
+						guarded = true
+					}
+				}
+			})
+			if guarded {
+				alts = append(alts, alt{T, 0})
+			}
+		}
+	}
+	if len(alts) == 0 {
+		c.Undecided("one-of alternatives with a nil-guarded encoder", "-", "none found")
+		return
+	}
+	isAlt := map[*types.Named]bool{}
+	for _, a := range alts {
+		isAlt[a.T] = true
+	}
+	// 2. constructions in the pdata API (outside the generated package)
+	n := 0
+	for _, pk := range p.Pkgs {
+		if !strings.HasPrefix(pk.PkgPath, modPrefix+"/pdata") || strings.Contains(pk.PkgPath, "/protogen") {
+			continue
+		}
+		for _, fn := range p.AllSrcFuncs(pk) {
+			allInstrs(fn, func(in ssa.Instruction) {
+				al, ok := in.(*ssa.Alloc)
+				if !ok {
+					return
+				}
+				T := namedOf(al.Type().(*types.Pointer).Elem())
+				if T == nil || !isAlt[T] {
+					return
+				}
+				n++
+				var stored ssa.Value
+				for _, r := range *al.Referrers() {
+					if fa, ok := r.(*ssa.FieldAddr); ok && fa.Field == 0 {
+						for _, rr := range *fa.Referrers() {
+							if st, ok := rr.(*ssa.Store); ok && st.Addr == ssa.Value(fa) {
+								stored = st.Val
+							}
+						}
+					}
+				}
+				// … or the field is assigned a non-nil value through the pointer later in the same function
+				if stored == nil || isNilConst(stored) {
+					allInstrs(fn, func(in2 ssa.Instruction) {
+						st, ok := in2.(*ssa.Store)
+						if !ok || isNilConst(st.Val) {
+							return
+						}
+						fa, ok := st.Addr.(*ssa.FieldAddr)
+						if !ok || fa.Field != 0 {
+							return
+						}
+						if pt, ok := fa.X.Type().(*types.Pointer); ok && namedOf(pt.Elem()) == T {
+							for v := range backSlice(fa.X) {
+								if v == ssa.Value(al) {
+									stored = st.Val
+								}
+							}
+							if fa.X == ssa.Value(al) {
+								stored = st.Val
+							}
+						}
+					})
+				}
+				// handing the field's address to a wrapper (ByteSlice over &bv.BytesValue) does not initialise it
+				c.Check(stored != nil && !isNilConst(stored), fmt.Sprintf("%s built in %s holds a non-nil value", T.Obj().Name(), fnName(fn)), p.Pos(al.Pos()), "field initialised with a non-nil value", "the alternative is constructed with a nil field, and its generated encoder writes the field only when it is non-nil: the value is encoded as an empty AnyValue and decodes as a value of no type (an empty bytes value comes back as Empty; JSON keeps it, so JSON→protobuf also disagrees with protobuf)")
+			})
+		}
+	}
+	if n == 0 {
+		c.Undecided("constructions of nil-guarded one-of alternatives in pdata", "-", "none found")
+	}
+}
